@@ -421,5 +421,41 @@ pub fn run(ctx: &Ctx, rep: &mut Report) {
             }
         }
     }
+    // declared bounds mentioning `Self` (cannot be instantiated by the probe, so: the generic impl must type-check)
+    if ctx.replay.is_none() {
+        let ntr = if thorough { TRAITS.len() } else { 14 };
+        let mut progs: Vec<(String, String)> = Vec::new();
+        for (tname, list, kind, _) in TRAITS.iter().take(ntr) {
+            for (shape, is_enum) in [("pub struct X<T>(pub T, pub Option<T>) where Self: Marker, Option<Self>: Marker;", false), ("pub struct X<T: PartialEq<Vec<Self>>> { pub a: T }", false), ("pub enum X<T> where Self: Marker { #[default] A, B(T) }", true)] {
+                if is_enum && *kind != Kind::Simple {
+                    continue;
+                }
+                let item = if *tname == "Default" || !is_enum { shape.to_string() } else { shape.replace("#[default] ", "") };
+                for entry in Entry::BOTH {
+                    let head = match entry {
+                        Entry::Attr => format!("#[derive_ex({list})]"),
+                        Entry::Derive => format!("#[derive(Ex)]\n#[derive_ex({list})]"),
+                    };
+                    progs.push((format!("{} {} {}", entry.name(), list, item), format!("use derive_ex::{{derive_ex, Ex}};\nuse dxrt::probe::*;\n{head}\n{item}\n")));
+                }
+            }
+        }
+        let res = runner::run_cases(&progs.iter().map(|p| runner::Case { code: p.1.clone() }).collect::<Vec<_>>(), &runner::Opts::check("c03s"));
+        for (p, r) in progs.iter().zip(res.iter()) {
+            rep.stats.states += 1;
+            rep.stats.transitions += 1;
+            rep.stats.terminals += 1;
+            rep.validated += 1;
+            rep.case(&p.0, true);
+            if !r.compiled() {
+                let mut atoms = BTreeSet::new();
+                atoms.insert("declared=Self".to_string());
+                atoms.insert(format!("group={}", r.codes()));
+                rep.violation(Violation { symptom: format!("generated-impl-does-not-type-check:{}", r.codes()), atoms, what: format!("{}: {}", p.0, r.errors().iter().map(|e| format!("{} {}", e.code, runner::first_line(&e.message))).collect::<Vec<_>>().join(" | ")), detail: json!({"kind": "declared-self", "what": p.0, "program": p.1}), standalone: Some(format!("mod case {{\n{}\n}}\nfn main() {{}}\n", p.1)) });
+            } else {
+                rep.outcome("declared-Self-bounds:compiles");
+            }
+        }
+    }
     rep.set("rustc_invocations", json!(runner::STATS.rustc_invocations.load(std::sync::atomic::Ordering::Relaxed)));
 }
